@@ -153,6 +153,28 @@ def impl(case):
         # a report = a haptools log warning, or the warning cyvcf2 issues for requested samples absent from a VCF
         res["reported"] = any(l == "WARNING" for l, _ in cap.records) or any("requested samples" in str(w.message) for w in pyw)
         res["out"] = [read_vcf(o / f) if (o / f).exists() else None for f in ("a.vcf", "b.vcf", "c.vcf")]
+        unknown = (ids and any(x.startswith("nosuchID") for x in ids)) or (smp and "ghost" in smp)
+        if unknown:
+            # the report must also come out of the command line when the Python entry point ran before it in the same
+            # process with its default logger (library logging is switched back on for this one observation)
+            import logging
+
+            logging.disable(logging.NOTSET)
+            try:
+                C.guarded(lambda: transform_haps(gf, d / "h.hap", samples=set(smp) if smp else None, haplotype_ids=set(ids) if ids else None, output=o / "d.vcf") and None)
+                from click.testing import CliRunner
+                from haptools.__main__ import main
+
+                with warnings.catch_warnings(record=True) as pyw2:
+                    warnings.simplefilter("always")
+                    r2 = CliRunner().invoke(main, [str(a) for a in ["transform", *rep_ids, *rep_smp, "-o", o / "e.vcf", gf, d / "h.hap"]], catch_exceptions=True)
+                try:
+                    txt = r2.stderr
+                except Exception:  # noqa: older click mixes stderr into output
+                    txt = r2.output
+                res["cli_reported_after_api"] = ("WARNING" in (txt or "")) or any("requested samples" in str(w.message) for w in pyw2)
+            finally:
+                logging.disable(logging.CRITICAL)
     elif k == "simphenotype":
         from haptools.sim_phenotype import simulate_pt
 
@@ -301,6 +323,8 @@ def oracle(case, obs):
         unknown = (case["ids"] and any(x.startswith("nosuchID") for x in case["ids"])) or (case["samples"] and "ghost" in case["samples"])
         if unknown and not obs["reported"]:
             return "unknown IDs / samples were dropped without being reported"
+        if unknown and obs.get("cli_reported_after_api") is False:
+            return "unknown IDs / samples were dropped by the command line without any report when the Python entry point had run earlier in the same process"
     return None
 
 
